@@ -30,7 +30,7 @@ META = dict(
            "np.empty float elements = arbitrary values (fresh symbols)", "d_mat = one free symbol >= 0 per unit pair (any symmetric dissimilarity)"],
     assumptions=["real-number arithmetic instead of float32", "d_mat symmetric, d_mat >= 0, delta_empty > 0",
                  "scaled-capacity sub-check substitutes the literal in `chunk_size = 10000` only"],
-    cfg_budget_s=dict(quick=150, thorough=1500),
+    cfg_budget_s=dict(quick=150, thorough=900),
     claim="For every size vector in the bound, all non-negative real pair dissimilarities and every delta_empty > 0 (solver-decided on every path of "
           "the real kernel source): the candidates are pairwise distinct, never the all-empty tuple, a tuple is a candidate iff its pair sum is <= "
           "C(n,2)*n*delta_empty, and each carries sum/C(n,2); the same with the buffer capacity scaled down so that growth, regrowth and "
